@@ -19,12 +19,14 @@ META_KEYS = DC_KEYS + ['status', 'note', 'confidenceScore']
 SPECIALS = ['quo"te', "ap'os", 'a<b', 'a&b', 'a>b', 'tab\there', 'nl\nhere', 'é',
             '\U0001F600 grin', 'שלום', '  lead', 'trail  ', 'dbl  sp',
             ']]>', '&amp;', '&#65;', '%s', "';--", '<!--c-->', 'été', 'a\\b',
-            '猫', 'A:B', '*', '?', '¿qué?', '«ï»', 'ＡＢ\ufeffｃ', 'open <? pi', 'close ?> pi']
+            '猫', 'A:B', '*', '?', '¿qué?', '«ï»', 'ＡＢ\ufeffｃ', 'open <? pi', 'close ?> pi',
+            'see id="zz" version="9"', "or id='zz' version='9'"]
 # only in attribute values and ILI definitions (in element text the reader's whitespace
 # normalisation would fold some of them, about which no property speaks)
 ATTR_SPECIALS = ['c1\x96ctl', 'nel\x85x', 'ls\u2028ps\u2029x', 'nb\xa0sp', 'zw\u200bsp',
                  '\x7fdel', 'pua\ue000', 'x\ufffdy']
-PLAIN = ['007', '1.50', '+1', '1e3', 'x', 'Ab c', 'foo', 'bar baz', 'lorem', 'ipsum dolor', 'N', 'v2', 'alpha', 'beta']
+PLAIN = ['007', '1.50', '+1', '1e3', 'x', 'Ab c', 'foo', 'bar baz', 'lorem', 'ipsum dolor', 'N', 'v2', 'alpha', 'beta',
+         'noun.cognition', 'verb.communication']     # (values that are names elsewhere)
 
 VOCAB = ['cat', 'Cat', 'CAT', 'chat', 'résumé', 'resume', 'Resume', 'dog', 'Hund',
          '犬', 'ad hoc', 'ad-hoc', 'san josé', 'San Jose', 'run', 'ran', 'runs',
@@ -46,7 +48,7 @@ ILI_POOL = ['i%d' % i for i in range(1, 13)]
 ILI_STATUSES = ['active', 'provisional', 'deprecated', 'other-status']
 LEX_IDS = ['a', 'ab', 'a-b', 'zz', 'b', 'abc', 'c\u0327a']   # last one: not NFC-stable
 VERSIONS = ['1', '1.0', '2', '1.0+x', '2020-rc.1', '10', '1:2.0']   # last: epoch-style
-LANGS = ['en', 'es', 'en-GB', 'ja']
+LANGS = ['en', 'es', 'en-GB', 'ja', 'en-gb']      # (tags are compared exactly)
 FRAMES = ['Somebody ----s', 'Somebody ----s something', 'Something ----s',
           'It is ----ing', 'Somebody ----s somebody PP', 'ある人が----']
 
@@ -137,7 +139,8 @@ class Gen:
             s = s + ' ' + self.s()
         if self.chance(self.p.get('p_long', 0.0)):
             # long text: spans many parser chunks and database overflow pages
-            n = self.rng.choice([300, 700, 2500])
+            # (expat hands text to the reader in pieces of at most 8 KiB even when it buffers)
+            n = self.rng.choice([300, 700, 2500, 2500, 9000, 9000, 40000])
             words = []
             while sum(len(x) + 1 for x in words) < n:
                 words.append(self.s())
@@ -682,6 +685,9 @@ def generate(rng: random.Random, profile: Profile | None = None) -> dict:
                 row = {'ili': src['ili'], 'status': rng.choice(ILI_STATUSES),
                        'definition': 'superseding line for %s' % src['ili']}
                 rows.insert(rng.randint(0, len(rows)), row)
+        if len(rows) >= 2 and g.chance(0.15):
+            # an empty line in the middle (two tables pasted together): it lists nothing
+            rows.insert(rng.randint(1, len(rows) - 1), {'blank': True})
         cols = ['ili']
         if any('status' in r for r in rows):
             cols.append('status')
